@@ -58,6 +58,10 @@ def run(ck, replay=None):
                              {'cfg': cfg, 'clause': x['clause'], 'detail': x['detail'], 'steps': row['steps'][:x['step'] + 1]})
             elif x['status'] == 'deviation':
                 deviations[x['clause']] = deviations.get(x['clause'], 0) + 1
+            elif x['status'] == 'blocked':
+                if streamlib.blocked_confirmed(ck, row, 2):
+                    ck.violation('blocked:' + x['detail'], 'the real pipe deadlocks on a behaviour of the specification: ' + x['detail'],
+                                 {'cfg': cfg, 'detail': x['detail'], 'steps': row['steps'][:x['step'] + 1]})
             else:
                 raise common.Infra('replay infrastructure error: %s' % x)
         ck.cov.setdefault('replay_configs', {})[cfg] = dict(info, mode=mode, replayed=len(rows))
